@@ -61,4 +61,21 @@ theorem runSession_indep (k : Kind) (S : Sys V α) (c : Config α) (omega : α) 
     | none => rfl
     | some r => simp only [ih r.st]
 
+theorem runSteps_indep (k : Kind) (S : Sys V α) (c : Config α) (omega : α) (st : State α)
+    (l : List (SessionStep V)) :
+    ∀ prev : State α, runSteps k S c omega prev l = independentSession k S c omega st (solvesOf l) := by
+  induction l with
+  | nil => intro prev; rfl
+  | cons a rest ih =>
+    intro prev
+    cases a with
+    | solve isApply x0 b =>
+      simp only [runSteps, solvesOf, independentSession]
+      rw [solveOne_indep k S c omega prev st]
+      cases solveOne k S c omega st isApply x0 b with
+      | none => rfl
+      | some r => simp only [ih r.st]
+    | reinitNumeric => simp only [runSteps, solvesOf]; exact ih prev
+    | reinitFull => simp only [runSteps, solvesOf]; exact ih prev
+
 end FeatModel.Solver
